@@ -74,7 +74,101 @@ def handleWsgi (status method dp body take ncb getdata locOut clocOut hinit : St
     pure ("ops=[" ++ ",".intercalate outs ++ "]|status=" ++ oS r3.statusLine ++ "|headers=" ++ oPairs headers ++
       "|body=" ++ hex bodyBytes ++ "|close=[" ++ ",".intercalate log ++ "]")
 
+/-! request: `hist <status> <dp> <body> <implicitConv> <autoLength> <hinit pairs> ev…` with events
+`cb,<n>` `getdata` `makeseq` `freeze,<etag>` `setdata,<hex>` `close` `wsgi,<method>,<locOut>,<clocOut>`
+`take,<n>` `iterclose`; answer: `<result per event>;…|status=…|headers=…|sent=<hex>|close=[ev x count,…]` -/
+
+def pREv (s : String) : Option REv :=
+  match s.splitOn "," with
+  | ["cb", n] => n.toNat?.map .callOnClose
+  | ["getdata"] => some .getData
+  | ["makeseq"] => some .makeSequence
+  | ["freeze", e] => (pAtom e).map .freeze
+  | ["setdata", b] => (unhex (if b == "-" then "" else b)).map .setData
+  | ["close"] => some .close
+  | ["wsgi", m, lo, co] => do pure (.getWsgi m.toList ((← pOptAtom lo).getD []) ((← pOptAtom co).getD []))
+  | ["take", n] => n.toNat?.map .take
+  | ["iterclose"] => some .iterClose
+  | _ => none
+
+def oOut : Except String Out → String
+  | .ok .unit => "~"
+  | .ok (.data b) => "d" ++ hex b
+  | .error e => oExc e
+
+def runHist (s : St) : List String → Option (St × List String)
+  | [] => some (s, [])
+  | e :: t => do
+    let ev ← pREv e
+    let r := nextEv s ev
+    let (s', outs) ← runHist r.1 t
+    pure (s', oOut r.2 :: outs)
+
+def countEvs (log : List CloseEv) : List String :=
+  let names := sortStrs (log.map oEv)
+  names.eraseDups.map fun n => n ++ "x" ++ toString (names.count n)
+
+def handleHist (status dp body implicit auto hinit : String) (evs : List String) : Option String := do
+  let status ← pStatus status
+  let dp ← boolArg dp
+  let (body, dataLen) ← pBody body
+  let implicit ← boolArg implicit
+  let auto ← boolArg auto
+  let hinit ← pPairs hinit
+  match construct hinit status body (if auto then dataLen else none) dp with
+  | .error e => pure (oExc e)
+  | .ok r0 =>
+    let (s, outs) ← runHist (initSt r0 ⟨implicit, auto⟩) evs
+    let (line, headers) := match s.wsgi with
+      | some (l, h) => (oS l, oPairs h)
+      | none => ("~", "~")
+    pure (";".intercalate outs ++ "|status=" ++ line ++ "|headers=" ++ headers ++ "|sent=" ++ hex s.sent.flatten ++
+      "|close=[" ++ ",".intercalate (countEvs s.log) ++ "]")
+
+/-! request: `fromapp <inner status> <inner body> <inner ncb> <buffered> <inner method> <outer ncb>
+<outer method> <take>`: `outer = Response.from_app(inner, environ, buffered)` (also
+`force_type(app, environ)`), callbacks on both, `outer.get_wsgi_response`, the server pulls `take`
+chunks and closes. In the model the outer body is a closable stream whose `close` is the close of the
+inner `ClosingIterator` (`run_wsgi_app`). -/
+
+def handleFromApp (statusI bodyI ncbI buffered methodI ncbO methodO take : String) : Option String := do
+  let statusI ← pStatus statusI
+  let (bodyI, dataLen) ← pBody bodyI
+  let ncbI ← natArg ncbI
+  let buffered ← boolArg buffered
+  let ncbO ← natArg ncbO
+  let take ← optArg natArg take
+  match construct [] statusI bodyI dataLen false with
+  | .error e => pure (oExc e)
+  | .ok rI =>
+    let sI0 := initSt ((List.range ncbI).foldl callOnClose rI) {}
+    let sI1 := (nextEv sI0 (.getWsgi methodI.toList [] [])).1
+    let (lineI, headersI) := sI1.wsgi.getD ([], [])
+    -- the inner iterable is drained (and, when buffering, closed) by `run_wsgi_app`
+    let sI2 := (nextEv sI1 (.take 1000000)).1
+    let chunks : List Item := sI2.sent.map .bytes
+    let sI3 := if buffered then (nextEv sI2 .iterClose).1 else sI2
+    let bodyO : Body := if buffered then ⟨.seq, chunks⟩ else ⟨.stream true, chunks⟩
+    match construct headersI (.text lineI) bodyO none false with
+    | .error e => pure (oExc e)
+    | .ok rO =>
+      let sO0 := initSt ((List.range ncbO).foldl (fun r n => callOnClose r (100 + n)) rO) {}
+      let sO1 := (nextEv sO0 (.getWsgi methodO.toList [] [])).1
+      let sO2 := (nextEv sO1 (.take (take.getD 1000000))).1
+      let sO3 := (nextEv sO2 .iterClose).1
+      -- every `wrapped` of the outer response is one `close()` of the inner ClosingIterator
+      let k := sO3.log.count .wrapped
+      let sI4 := (List.range (if buffered then 0 else k)).foldl (fun s _ => (nextEv s .iterClose).1) sI3
+      let (lineO, headersO) := sO3.wsgi.getD ([], [])
+      pure ("status=" ++ oS lineO ++ "|headers=" ++ oPairs headersO ++ "|sent=" ++ hex sO3.sent.flatten ++
+        "|outer=[" ++ ",".intercalate (countEvs (sO3.log.filter (· != .wrapped))) ++ "]|inner=[" ++
+        ",".intercalate (countEvs sI4.log) ++ "]")
+
 def handle : Handler
+  | "fromapp", [statusI, bodyI, ncbI, buffered, methodI, ncbO, methodO, take] =>
+    some ((handleFromApp statusI bodyI ncbI buffered methodI ncbO methodO take).getD badArgs)
+  | "hist", status :: dp :: body :: implicit :: auto :: hinit :: evs =>
+    some ((handleHist status dp body implicit auto hinit evs).getD badArgs)
   | "wsgi", status :: method :: dp :: body :: take :: ncb :: getdata :: locOut :: clocOut :: hinit :: ops =>
     some ((handleWsgi status method dp body take ncb getdata locOut clocOut hinit ops).getD badArgs)
   | _, _ => none
